@@ -208,6 +208,16 @@ func genC05parse(g *G) {
 	for _, s := range parseHand {
 		parseCases(g, s, "hand")
 	}
+	// string literals whose escapes are cut off at every point (a surrogate-pair escape, \u, \x-like, octal-like, a
+	// lone backslash before the closing quote), single- and double-quoted, in a print tag and in a quoted attribute
+	for _, full := range []string{`\uD83D\uDE00`, `\uD83D\u00e9`, `\uDE00\uD83D`, `\u00e9`, `\uD83D\n`, `\uD83D\\`, `\uD83Dxyz`, `\x41`, `\101`, `\U0001F600`} {
+		for cut := 1; cut <= len(full); cut++ {
+			p := full[:cut]
+			parseCases(g, "{namespace a}\n{template .t}\n{'"+p+"'}\n{/template}\n", "cut-escape")
+			parseCases(g, "{namespace a}\n{template .t}\n{'a"+p+"b' + \""+p+"\"}\n{/template}\n", "cut-escape")
+			parseCases(g, "{namespace a}\n{template .t}\n{call .t data=\"['k': '"+p+"']\"/}{msg desc=\""+p+"\"}x{/msg}\n{/template}\n", "cut-escape")
+		}
+	}
 	samples := parseSamples()
 	for _, s := range samples {
 		parseCases(g, s, "sample")
